@@ -1609,13 +1609,13 @@ func EncodeTLVT(w net.Conn, typ byte, v encoding.BinaryMarshaler, t time.Duratio
 
 // EncodeTLV encodes v to a binary format and writes the record-length-value record to w.
 func EncodeTLV(w io.Writer, typ byte, v encoding.BinaryMarshaler) error {
-	if err := WriteType(w, typ); err != nil {
+	// Marshal before writing anything: a type byte without its length-value leaves the
+	// peer waiting for a frame that never completes, and everything after it misframed.
+	buf, err := v.MarshalBinary()
+	if err != nil {
 		return err
 	}
-	if err := EncodeLV(w, v); err != nil {
-		return err
-	}
-	return nil
+	return WriteTLV(w, typ, buf)
 }
 
 // EncodeLV encodes v to a binary format and writes the length-value record to w.
